@@ -5,13 +5,14 @@ case = [mode, drv, a, b, c, seed]; see harness/rt/src/bin/c03.rs.
   mode 2 forced window       a = scheduling point of Driver::poll (1, 2 (io_uring only), 3)
   mode 3 external-loop       a = variant 0..3
   mode 4 executor level      a = sub-mode 0..3, b = cross-thread queue size (1, 2, 64), c = threads / extra tasks
+  mode 6 completion burst    a = ring capacity, b = receives completing at once, c = wake during the burst
   mode 5 host event loop     a = wake source (0 same-thread callback after flush, 1 cross-thread during the
                              sleep, 2 timer, 3 I/O, 4 same-thread callback before flush, 5 same-thread wake of
                              the loop's own waker after flush), b = rounds, c = cross-thread queue size
 """
 import random
 
-MODES = {1: "stress", 2: "window", 3: "external", 4: "executor", 5: "hostloop"}
+MODES = {1: "stress", 2: "window", 3: "external", 4: "executor", 5: "hostloop", 6: "cq-burst"}
 SOURCES = {0: "same-thread-after-flush", 1: "cross-thread", 2: "timer", 3: "io", 4: "same-thread-before-flush",
            5: "own-waker-after-flush"}
 THOROUGH_SCALE = 4
@@ -26,7 +27,12 @@ def gen_case(rng, big):
         # the runtime's own thread between flush() and the sleep
         src = rng.choice([0, 0, 0, 0, 1, 2, 3, 4, 5, 5])
         return [5, drv, src, rng.choice([2, 4, 8]) * (2 if big else 1), rng.choice([1, 2, 64]), seed]
-    r = (r - 0.22) / 0.78
+    if r < 0.30:
+        # completion burst that overflows a small completion queue, then a cross-thread wake
+        cap = rng.choice([1, 2, 2, 4, 8])
+        burst = rng.choice([2 * cap + 2, 3 * cap + 1, 4 * cap + 4])
+        return [6, drv, cap, burst, rng.choice([0, 1, 1]), seed]
+    r = (r - 0.30) / 0.70
     if r < 0.30:
         k = rng.choice([1, 2, 4, 8])
         rounds = rng.choice([5, 10, 20, 40]) * (THOROUGH_SCALE if big else 1)
